@@ -17,7 +17,7 @@
 /*@unit {'name':'c06_cmp', 'props':['C06'], 'entry':'h_cmp', 'enforce':'cmpRuleEntry',
   'claims':'cmpRuleEntry (the qsort comparator applied to every success state at load) is negative exactly when a precedes b in the precedence order, positive exactly when b precedes a, zero exactly for the same rule'}@*/
 
-/*@unit {'name':'c06_accumulate', 'props':['C06'], 'entry':'h_accum', 'enforce':'Rules_accumulate_rules', 'replace':['RuleEntry_lt','RuleEntry_store'], 'defines':['ACCUM','STUB_STORE'], 'min_loops':3,
+/*@unit {'name':'c06_accumulate', 'props':['C06'], 'entry':'h_accum', 'enforce':'Rules_accumulate_rules', 'defines':['ACCUM','STUB_STORE'], 'min_loops':3,
   'claims':'accumulate_rules, all list lengths up to the real MAX_RULES=128 (loop contracts): every store goes to the next free entry of the other half of m_rules and never beyond its 128 entries, stores are strictly ascending in the precedence order (output sorted and duplicate-free), every stored entry is read from one of the two input lists, and unless the cap of 128 is reached every entry of both inputs has been stored (an equal entry counts once); m_begin/m_end delimit exactly the stored entries'}@*/
 /*@unit {'name':'c06_accumulate_b', 'props':['C06'], 'entry':'h_accum_b', 'enforce':'Rules_accumulate_rules', 'defines':['ACCUM','REAL_STORE'], 'kind':'bounded', 'unwind':10,
   'bound':'both sorted input lists have at most 4 entries (rules drawn from a pass of 6 rules with symbolic sort keys); the real MAX_RULES=128, so the output cap is not reached',
@@ -186,20 +186,30 @@ bool g_seen_l, g_seen_r;     /* has an entry naming g_xl / g_xr been stored? */
 #define IN_L(p, strict) (SAME((p), g_lbase) && OFF(p) >= OFF(g_lbase) && (size_t)(OFF(p) - OFF(g_lbase)) % sizeof(RuleEntry) == 0 && (strict ? LIDX(p) < g_nl : LIDX(p) <= g_nl))
 #define IN_R(p, strict) (SAME((p), g_rbase) && OFF(p) >= OFF(g_rbase) && (size_t)(OFF(p) - OFF(g_rbase)) % sizeof(RuleEntry) == 0 && (strict ? RIDX(p) < g_nr : RIDX(p) <= g_nr))
 #define OUT_OK(p)  (SAME((p), g_obase) && OFF(p) == OFF(g_obase) + (long)(g_cnt * sizeof(RuleEntry)))
-void RuleEntry_store(RuleEntry *dst, const RuleEntry *src)
-__CPROVER_requires(OUT_OK(dst) && g_cnt < MAX_RULES)                          /* next free entry, inside the 128-entry half */
-__CPROVER_requires(IN_L(src, 1) || IN_R(src, 1))                              /* an entry of one of the inputs */
-__CPROVER_requires(g_cnt == 0 || PREC(g_lastv, src->rule))                    /* strictly after the previous store */
-__CPROVER_assigns(g_cnt, g_lastv, g_seen_l, g_seen_r)
-__CPROVER_ensures(g_cnt == __CPROVER_old(g_cnt) + 1 && g_lastv == src->rule)
-__CPROVER_ensures(g_seen_l == (__CPROVER_old(g_seen_l) || src->rule == g_xl) && g_seen_r == (__CPROVER_old(g_seen_r) || src->rule == g_xr));
+/* (a ghost model with a body, not a replaced contract: dfcc contract replacement inside a loop contract costs minutes of
+   symbolic execution here; the asserts are the preconditions, the assignments the effect) */
+static void RuleEntry_store(RuleEntry *dst, const RuleEntry *src)
+{
+    __CPROVER_assert(OUT_OK(dst) && g_cnt < MAX_RULES, "store: next free entry, inside the 128-entry half of m_rules");
+    __CPROVER_assert(IN_L(src, 1) || IN_R(src, 1), "store: the source is an entry of one of the two inputs");
+    __CPROVER_assert(g_cnt == 0 || PREC(g_lastv, src->rule), "store: strictly after the previous store in the precedence order");
+    g_cnt = g_cnt + 1; g_lastv = src->rule;
+    g_seen_l = g_seen_l || src->rule == g_xl; g_seen_r = g_seen_r || src->rule == g_xr;
+}
 
+#ifndef NRP
+#define NRP 128              /* rules of the harness's pass */
+#endif
+#ifndef MAXL
+#define MAXL MAX_RULES       /* longest list the harness builds */
+#endif
 /* sorted list of rules of the pass: strictly ascending in the precedence order at every adjacent pair */
 static bool list_sorted_all(const RuleEntry *b, size_t n)
 {
-    for (size_t i = 0; i < MAX_RULES; ++i)
-        if (i < n && !(ISRULE(b[i].rule) && (i + 1 >= n || (ISRULE(b[i + 1].rule) && PREC(b[i].rule, b[i + 1].rule))))) return false;
-    return true;
+    bool ok = true;
+    for (size_t i = 0; i < MAXL; ++i)
+        ok = ok & (i >= n || (ISRULE(b[i].rule) && (i + 1 >= n || (ISRULE(b[i + 1].rule) && PREC(b[i].rule, b[i + 1].rule)))));
+    return ok;
 }
 void Rules_accumulate_rules(Rules *self, const State *state)
 __CPROVER_requires(self == g_self && state == g_state && self->m_begin == g_lbase && self->m_end == g_lbase + g_nl && g_nl <= MAX_RULES
@@ -240,12 +250,6 @@ __CPROVER_ensures((g_nr != 0 && g_cnt < MAX_RULES && g_j < g_nr) ==> g_seen_r);
                   __CPROVER_loop_invariant(INV_SEEN)
                   __CPROVER_decreases(g_nr - RIDX(rre))"""}}@*/
 
-#ifndef NRP
-#define NRP 128              /* rules of the harness's pass */
-#endif
-#ifndef MAXL
-#define MAXL MAX_RULES       /* longest list the harness builds */
-#endif
 static void run_accum(Rules *R, RuleEntry *lbase, RuleEntry *obase, Rule *rs)
 {
     size_t nl = nondet_size_t(), nr = nondet_size_t();
